@@ -1247,14 +1247,16 @@ func (r *RangeEntry) CheckValue(v val.Value) error {
 			return errNotExpectedValue
 		}
 	}
-	if !r.Min.Empty() {
+	// min and max stand for the bounds of the type being restricted, which are
+	// enforced on their own: nothing to compare with here
+	if !r.Min.Empty() && !r.Min.isMin && !r.Min.isMax {
 		if cmp, err := r.Min.Compare(v); err != nil {
 			return err
 		} else if cmp > 0 {
 			return errOutsideRange
 		}
 	}
-	if !r.Max.Empty() {
+	if !r.Max.Empty() && !r.Max.isMin && !r.Max.isMax {
 		if cmp, err := r.Max.Compare(v); err != nil {
 			return err
 		} else if cmp < 0 {
@@ -1278,7 +1280,7 @@ func (n RangeNumber) IsMax() bool {
 }
 
 func (n RangeNumber) IsMin() bool {
-	return n.isMax
+	return n.isMin
 }
 
 func (n RangeNumber) Integer() *int64 {
